@@ -836,6 +836,28 @@ class Generator:
         fi = header.index('fn')
         name = header[fi + 1]
         h_twin = list(header)
+        # `Self::Err` etc. in the twin (an inherent impl has no associated types) -> the impl's definitions
+        amap = {}
+        for ty in self.x.impl_types.get(it.impl_header, []):
+            tt = ty.split(' ')
+            if tt[0] == 'type' and tt[2] == '=' and tt[-1] == ';':
+                amap[tt[1]] = tt[3:-1]
+
+        def rw(toks):
+            o = []
+            k = 0
+            n = len(toks)
+            while k < n:
+                if toks[k] == 'Self' and k + 2 < n and toks[k + 1] == '::' and toks[k + 2] in amap and not (k + 3 < n and toks[k + 3] == '::'):
+                    o += amap[toks[k + 2]]
+                    k += 3
+                    continue
+                o.append(toks[k])
+                k += 1
+            return o
+        if amap:
+            h_twin = rw(h_twin)
+            body = rw(body)
         new_impl_header = self._inherent_twin(it, h_twin, fi, name + '__wf_')
         m = Item()
         m.entry = it.entry
@@ -862,7 +884,7 @@ class Generator:
         m.degraded_full = None
         m.full = join(h_twin + body)
         ctoks = lex(it.canary_full) if it.canary_full else None
-        m.canary_full = join(h_twin + ctoks[len(header):]) if ctoks and ctoks[:len(header)] == header else m.full
+        m.canary_full = join(h_twin + (rw(ctoks[len(header):]) if amap else ctoks[len(header):])) if ctoks and ctoks[:len(header)] == header else m.full
         m.n_canaries = it.n_canaries if ctoks and ctoks[:len(header)] == header else 0
         m.stub = '#[verifier::external_body]\n' + join(h_twin) + '{ unimplemented!() }\n'
         # the trait method: `requires P.. ensures Q..`  ->  `ensures (P..) ==> (Q)`
